@@ -197,6 +197,46 @@ macro_rules! apply {
 	(@scheme false, $buf:ident, $s:ident) => { $buf.set_scheme($s) };
 }
 
+/// C04 "however obtained": the buffer a step works on is parsed, or converted from the other
+/// family / from the reference or full type, or built by `default()` / `from_scheme`.
+/// Returns the buffer and the name of the route; None when the route does not apply to `pre`.
+macro_rules! obtain {
+	(full, $m:ident, $pre:expr, $route:expr) => {{
+		let pre: &str = $pre;
+		match $route {
+			1 => obtain!(@ref_buf $m, pre).and_then(|b| obtain!(@try_full $m, b)).map(|b| (b, "try_into_full")),
+			2 if pre.is_ascii() => iref::uri::UriBuf::new(pre.as_bytes().to_vec()).ok().map(|b| (obtain!(@from_uri $m, b), "from_uri")),
+			3 if pre.ends_with(':') => iref::uri::SchemeBuf::new(pre[..pre.len() - 1].as_bytes().to_vec()).ok().map(|s| (<obtain!(@full_ty $m)>::from_scheme(s), "from_scheme")),
+			_ => obtain!(@new_full $m, pre).map(|b| (b, "new")),
+		}
+	}};
+	(reference, $m:ident, $pre:expr, $route:expr) => {{
+		let pre: &str = $pre;
+		match $route {
+			1 => obtain!(@new_full $m, pre).map(|b| (obtain!(@into_ref $m, b), "full.into_ref")),
+			2 if pre.is_ascii() => iref::uri::UriRefBuf::new(pre.as_bytes().to_vec()).ok().map(|b| (obtain!(@from_uri_ref $m, b), "from_uri_ref")),
+			3 if pre.is_empty() => Some((<obtain!(@ref_ty $m)>::default(), "default")),
+			_ => obtain!(@ref_buf $m, pre).map(|b| (b, "new")),
+		}
+	}};
+	(@full_ty uri) => { iref::uri::UriBuf };
+	(@full_ty iri) => { iref::iri::IriBuf };
+	(@ref_ty uri) => { iref::uri::UriRefBuf };
+	(@ref_ty iri) => { iref::iri::IriRefBuf };
+	(@new_full uri, $pre:expr) => { iref::uri::UriBuf::new($pre.as_bytes().to_vec()).ok() };
+	(@new_full iri, $pre:expr) => { iref::iri::IriBuf::new($pre.to_string()).ok() };
+	(@ref_buf uri, $pre:expr) => { iref::uri::UriRefBuf::new($pre.as_bytes().to_vec()).ok() };
+	(@ref_buf iri, $pre:expr) => { iref::iri::IriRefBuf::new($pre.to_string()).ok() };
+	(@try_full uri, $b:expr) => { $b.try_into_uri().ok() };
+	(@try_full iri, $b:expr) => { $b.try_into_iri().ok() };
+	(@into_ref uri, $b:expr) => { $b.into_uri_ref() };
+	(@into_ref iri, $b:expr) => { $b.into_iri_ref() };
+	(@from_uri uri, $b:expr) => { $b };
+	(@from_uri iri, $b:expr) => { $b.into_iri() };
+	(@from_uri_ref uri, $b:expr) => { $b };
+	(@from_uri_ref iri, $b:expr) => { $b.into_iri_ref() };
+}
+
 /// A near miss: one random edit (insert / delete / replace) with a character that matters.
 fn mutate(r: &mut StdRng, s: &str) -> String {
 	const SPECIAL: &[char] = &[':', '/', '?', '#', '[', ']', '@', '%', ' ', '<', '"', '^', '|', '\\', '\u{7f}', '\u{0}', 'g', 'A', '0',
@@ -485,8 +525,10 @@ fn main_sessions(args: &[String]) {
 		if i % 3 == 0 {
 			// stand-alone path buffer
 			let abs0 = r.gen_bool(0.5);
-			let init = gen_path(&mut r, abs0);
-			let Ok(mut buf) = iref::iri::PathBuf::new(init.clone()) else { continue };
+			// "however obtained": one session in eight starts from PathBuf::default()
+			let from_default = i % 24 == 0;
+			let init = if from_default { String::new() } else { gen_path(&mut r, abs0) };
+			let Ok(mut buf) = (if from_default { Ok(iref::iri::PathBuf::default()) } else { iref::iri::PathBuf::new(init.clone()) }) else { continue };
 			writeln!(out, "{}", json!({"ev": "open_path", "fam": "iri", "kind": "path", "scheme": [-1], "authority": [-1], "query": [-1], "fragment": [-1], "init": enc(&init)})).unwrap();
 			count += 1;
 			{
@@ -692,12 +734,19 @@ fn main() {
 			let pre = text.clone();
 			pending(&json!({"ev": "edit", "fam": fam, "kind": if full { "full" } else { "ref" }, "pre": enc(&pre), "op": op,
 				"arg": match &arg { Some(a) => enc(a), None => json!([-1]) }, "panic": true, "post": [], "msg": "process aborted in this call"}));
+			let route = r.gen_range(0..6);
+			let mut origin = "new";
+			let mut origin_text: Option<Vec<u8>> = None;
 			let result: Result<Option<Vec<u8>>, String> = if fam == "uri" {
 				if full {
-					let Ok(mut buf) = iref::uri::UriBuf::new(pre.clone().into_bytes()) else { break };
+					let Some((mut buf, how)) = obtain!(full, uri, pre.as_str(), route) else { break };
+					origin = how;
+					origin_text = Some(buf.as_bytes().to_vec());
 					guard(|| if apply!(buf, uri, op, arg, true, Uri) { Some(buf.as_bytes().to_vec()) } else { None })
 				} else {
-					let Ok(mut buf) = iref::uri::UriRefBuf::new(pre.clone().into_bytes()) else { break };
+					let Some((mut buf, how)) = obtain!(reference, uri, pre.as_str(), route) else { break };
+					origin = how;
+					origin_text = Some(buf.as_bytes().to_vec());
 					guard(|| {
 						if op == "resolve" {
 							match iref::uri::Uri::new(arg.as_deref().unwrap()) { Ok(b) => { buf.resolve(b); Some(buf.as_bytes().to_vec()) } Err(_) => None }
@@ -705,17 +754,28 @@ fn main() {
 					})
 				}
 			} else if full {
-				let Ok(mut buf) = iref::iri::IriBuf::new(pre.clone()) else { break };
+				let Some((mut buf, how)) = obtain!(full, iri, pre.as_str(), route) else { break };
+				origin = how;
+				origin_text = Some(buf.as_bytes().to_vec());
 				guard(|| if apply!(buf, iri, op, arg, true, Iri) { Some(buf.as_bytes().to_vec()) } else { None })
 			} else {
-				let Ok(mut buf) = iref::iri::IriRefBuf::new(pre.clone()) else { break };
+				let Some((mut buf, how)) = obtain!(reference, iri, pre.as_str(), route) else { break };
+				origin = how;
+				origin_text = Some(buf.as_bytes().to_vec());
 				guard(|| {
 					if op == "resolve" {
 						match iref::iri::Iri::new(arg.as_deref().unwrap()) { Ok(b) => { buf.resolve(b); Some(buf.as_bytes().to_vec()) } Err(_) => None }
 					} else if apply!(buf, iri, op, arg, false, Iri) { Some(buf.as_bytes().to_vec()) } else { None }
 				})
 			};
-			let mut ev = json!({"ev": "edit", "fam": fam, "kind": if full { "full" } else { "ref" }, "pre": enc(&pre), "op": op,
+			if origin != "new" {
+				// the route must hand over exactly the text (C04 "however obtained", C13 conversions)
+				let t = origin_text.unwrap_or_default();
+				let text_cps = match String::from_utf8(t) { Ok(s) => enc(&s), Err(e) => serde_json::Value::Array(e.into_bytes().iter().map(|b| json!(0x110000u32 + *b as u32)).collect()) };
+				writeln!(out, "{}", json!({"ev": "origin", "fam": fam, "kind": if full { "full" } else { "ref" }, "how": origin, "pre": enc(&pre), "text": text_cps, "panic": false})).unwrap();
+				n_events += 1;
+			}
+			let mut ev = json!({"ev": "edit", "fam": fam, "kind": if full { "full" } else { "ref" }, "origin": origin, "pre": enc(&pre), "op": op,
 				"arg": match &arg { Some(a) => enc(a), None => json!([-1]) }});
 			match result {
 				Ok(None) => continue, // invalid argument for its type, or not applicable: nothing was called
